@@ -8,13 +8,13 @@ PROPS = {
     'C20': {
         'always_cmds': [['exploreflood'], ['explorenoinfo']],
         'engines': [('explore', 150, 3000, ['-shardsize', '50'])],
-        'rule': 'plus explorenoinfo (a probe attempted while the scrape manager has no client for the job is a failed probe: shown as bad, retried, succeeds once the client exists, then silence - a path outside Model/Explore.v); plus, in every run, the queue flood (exploreflood: 10060 targets, 4 workers whose probes hang, Get(all) until nothing moves, release, Get(all) again: Get must return and every target must have been probed); histories of 8-20 (8-30) ops on the REAL Explore with 1-3 worker goroutines: full discovery updates over 5 hashes x 3 jobs '
+        'rule': 'plus explorenoinfo (a probe attempted while the scrape manager has no client for the job is a failed probe: shown as bad, retried, succeeds once the client exists, then silence); op jobinfo in the histories: the scrape manager alone is reloaded with fewer / all jobs; plus, in every run, the queue flood (exploreflood: 10060 targets, 4 workers whose probes hang, Get(all) until nothing moves, release, Get(all) again: Get must return and every target must have been probed); histories of 8-20 (8-30) ops on the REAL Explore with 1-3 worker goroutines: full discovery updates over 5 hashes x 3 jobs '
                 '(adds, removals, moves), Get, reloads dropping/restoring a job, completion of the oldest blocked probe of a hash with success '
                 '(counts) or failure, and "let the retry timers fire" (real sleeps; retry interval 400 ms via hook); the probe function is '
                 'replaced (hook) by one that blocks until the harness completes it, so the harness is the scheduler. Observed after every op: '
                 'the multiset of blocked probes, probes started per hash, and what Get returned. Every history ends by asking for all hashes. '
                 'non-trivial = >= 4 ops (all); distinct by input',
-        'theorems': 'C20_asked_once C20_accounted C20_one_in_flight_per_entry C20_quiet_after_success C20_estimate C20_failed_probe '
+        'theorems': 'C20_no_client_is_a_failed_probe C20_asked_once C20_accounted C20_one_in_flight_per_entry C20_quiet_after_success C20_estimate C20_failed_probe '
                     'C20_one_in_flight_per_target_refuted',
         'trusted_base': ['Model/Explore.v hand-written LTS of explore.go (atomic critical sections, eager workers, FIFO channel); tie = step-by-step '
                          'differential histories on the real Explore with hooked probe function and retry interval'],
